@@ -213,12 +213,90 @@ fn pick_val(r: &mut ChaCha20Rng) -> BigUint {
     }
 }
 
+
+#[allow(clippy::too_many_arguments)]
+fn graph_event(g: usize, nodes: &[Node], jn: &[Value], outputs: &[usize], layout: &[(String, usize, usize)], named: &mut Vec<(String, Vec<BigUint>)>,
+               buf: &[BigUint], scratch: &mut Vec<u8>, r: &mut ChaCha20Rng) -> Value {
+let n = nodes.len();
+let ubuf: Vec<U256> = buf.iter().map(big_u256).collect();
+    let mut ev = json!({"t": "graph", "g": g, "nodes": jn, "outputs": outputs, "inputs": buf.iter().map(le).collect::<Vec<_>>(),
+                        "layout": layout.iter().map(|(n, o, l)| json!([n, o, l])).collect::<Vec<_>>()});
+    // every node's value (evaluate with all nodes as outputs), with advice for the relational operators
+    let all: Vec<usize> = (0..n).collect();
+    match catch(AssertUnwindSafe(|| graph::evaluate(&nodes, &ubuf, &all))) {
+        Ok(vals) => {
+            let vb: Vec<BigUint> = vals.iter().map(fr_big).collect();
+            let mut qs = Vec::new();
+            for (i, nd) in nodes.iter().enumerate() {
+                qs.push(match nd {
+                    Node::Op(op, a, b) => {
+                        let name = OPS.iter().find(|(_, o)| o == op).unwrap().0;
+                        le(&advice(name, &vb[*a], &vb[*b], &vb[i]))
+                    }
+                    _ => vec![],
+                });
+            }
+            ev["values"] = json!(vb.iter().map(le).collect::<Vec<_>>());
+            ev["q"] = json!(qs);
+            ev["res"] = json!("ok");
+        }
+        Err(m) => {
+            ev["res"] = json!("panic");
+            ev["msg"] = json!(m.chars().take(100).collect::<String>());
+        }
+    }
+    match catch(AssertUnwindSafe(|| graph::evaluate(&nodes, &ubuf, &outputs))) {
+        Ok(o) => ev["out"] = json!(o.iter().map(|v| le(&fr_big(v))).collect::<Vec<_>>()),
+        Err(_) => ev["out_panic"] = json!(true),
+    }
+    // storage round trip and the stored graph evaluated through calc_witness under 3 insertion orders
+    let info: HashMap<String, (usize, usize)> = layout.iter().map(|(n, o, l)| (n.clone(), (*o, *l))).collect();
+    let mut bytes = Vec::new();
+    let ser = catch(AssertUnwindSafe(|| serialize_witnesscalc_graph(&mut bytes, &nodes.to_vec(), outputs, &info)));
+    ev["ser"] = json!(matches!(ser, Ok(Ok(()))));
+    if matches!(ser, Ok(Ok(()))) {
+        // read back through a reader that delivers the stored bytes at once or in pieces of 1, 2 or 13 bytes
+        let rb: Box<dyn std::io::Read> = match g % 4 {
+            0 => Box::new(std::io::Cursor::new(bytes.clone())),
+            1 => Box::new(crate::misc_exec::Chunked { data: bytes.clone(), pos: 0, chunk: 1 }),
+            2 => Box::new(crate::misc_exec::Chunked { data: bytes.clone(), pos: 0, chunk: 2 }),
+            _ => Box::new(crate::misc_exec::Chunked { data: bytes.clone(), pos: 0, chunk: 13 }),
+        };
+        match catch(AssertUnwindSafe(move || deserialize_witnesscalc_graph(rb))) {
+            Ok(Ok((n2, o2, i2))) => {
+                ev["roundtrip"] = json!({"nodes": n2 == nodes, "outputs": o2 == outputs, "inputs": i2 == info});
+            }
+            _ => ev["roundtrip"] = json!({"nodes": false, "outputs": false, "inputs": false}),
+        }
+        let mut outs = Vec::new();
+        for ord in 0..3 {
+            match ord {
+                1 => named.reverse(),
+                2 => { let k = r.gen_range(0..named.len()); named.rotate_left(k); }
+                _ => {}
+            }
+            let it = named.iter().map(|(n, vs)| (n.clone(), vs.iter().map(big_fr).collect::<Vec<_>>()));
+            // the stored graph is handed over in ONE long-lived buffer that is overwritten in place from graph to graph
+            scratch.clear();
+            scratch.extend_from_slice(&bytes);
+            match catch(AssertUnwindSafe(|| calc_witness(it, &scratch[..]))) {
+                Ok(Ok(o)) => outs.push(json!(o.iter().map(|v| le(&fr_big(v))).collect::<Vec<_>>())),
+                Ok(Err(e)) => { let _ = e; outs.push(json!([[256]])) } // (an error: a value no output vector can equal; same sort for the judge)
+                Err(m) => { let _ = m; outs.push(json!([[257]])) }
+            }
+        }
+        ev["calc"] = json!(outs);
+    }
+    ev
+}
+
 /// zkexec graphs --seed N --count K --out T : random well-formed graphs, evaluated, stored, reloaded
 pub fn run_graphs(seed: u64, count: usize, out: &mut Vec<Value>) {
     let mut r = ChaCha20Rng::seed_from_u64(seed);
+    let mut scratch: Vec<u8> = Vec::with_capacity(1 << 20);
     for g in 0..count {
         // declared input layout: slot 0 is the constant 1; named vectors at random offsets (gaps allowed)
-        let nnames = r.gen_range(1..5usize);
+        let nnames = if g % 7 == 3 { r.gen_range(30..50usize) } else { r.gen_range(1..5usize) }; // (some with a long input map)
         let mut layout: Vec<(String, usize, usize)> = Vec::new();
         let mut off = 1usize;
         for k in 0..nnames {
@@ -275,66 +353,21 @@ pub fn run_graphs(seed: u64, count: usize, out: &mut Vec<Value>) {
                 buf[o + k] = v.clone();
             }
         }
-        let ubuf: Vec<U256> = buf.iter().map(big_u256).collect();
-        let mut ev = json!({"t": "graph", "g": g, "nodes": jn, "outputs": outputs, "inputs": buf.iter().map(le).collect::<Vec<_>>(),
-                            "layout": layout.iter().map(|(n, o, l)| json!([n, o, l])).collect::<Vec<_>>()});
-        // every node's value (evaluate with all nodes as outputs), with advice for the relational operators
-        let all: Vec<usize> = (0..n).collect();
-        match catch(AssertUnwindSafe(|| graph::evaluate(&nodes, &ubuf, &all))) {
-            Ok(vals) => {
-                let vb: Vec<BigUint> = vals.iter().map(fr_big).collect();
-                let mut qs = Vec::new();
-                for (i, nd) in nodes.iter().enumerate() {
-                    qs.push(match nd {
-                        Node::Op(op, a, b) => {
-                            let name = OPS.iter().find(|(_, o)| o == op).unwrap().0;
-                            le(&advice(name, &vb[*a], &vb[*b], &vb[i]))
-                        }
-                        _ => vec![],
-                    });
-                }
-                ev["values"] = json!(vb.iter().map(le).collect::<Vec<_>>());
-                ev["q"] = json!(qs);
-                ev["res"] = json!("ok");
-            }
-            Err(m) => {
-                ev["res"] = json!("panic");
-                ev["msg"] = json!(m.chars().take(100).collect::<String>());
-            }
-        }
-        match catch(AssertUnwindSafe(|| graph::evaluate(&nodes, &ubuf, &outputs))) {
-            Ok(o) => ev["out"] = json!(o.iter().map(|v| le(&fr_big(v))).collect::<Vec<_>>()),
-            Err(_) => ev["out_panic"] = json!(true),
-        }
-        // storage round trip and the stored graph evaluated through calc_witness under 3 insertion orders
-        let info: HashMap<String, (usize, usize)> = layout.iter().map(|(n, o, l)| (n.clone(), (*o, *l))).collect();
-        let mut bytes = Vec::new();
-        let ser = catch(AssertUnwindSafe(|| serialize_witnesscalc_graph(&mut bytes, &nodes, &outputs, &info)));
-        ev["ser"] = json!(matches!(ser, Ok(Ok(()))));
-        if matches!(ser, Ok(Ok(()))) {
-            match catch(AssertUnwindSafe(|| deserialize_witnesscalc_graph(std::io::Cursor::new(&bytes)))) {
-                Ok(Ok((n2, o2, i2))) => {
-                    ev["roundtrip"] = json!({"nodes": n2 == nodes, "outputs": o2 == outputs, "inputs": i2 == info});
-                }
-                _ => ev["roundtrip"] = json!({"nodes": false, "outputs": false, "inputs": false}),
-            }
-            let mut outs = Vec::new();
-            for ord in 0..3 {
-                match ord {
-                    1 => named.reverse(),
-                    2 => { let k = r.gen_range(0..named.len()); named.rotate_left(k); }
-                    _ => {}
-                }
-                let it = named.iter().map(|(n, vs)| (n.clone(), vs.iter().map(big_fr).collect::<Vec<_>>()));
-                match catch(AssertUnwindSafe(|| calc_witness(it, &bytes))) {
-                    Ok(Ok(o)) => outs.push(json!(o.iter().map(|v| le(&fr_big(v))).collect::<Vec<_>>())),
-                    Ok(Err(e)) => outs.push(json!(format!("err: {e}"))),
-                    Err(m) => outs.push(json!(format!("panic: {}", m.chars().take(60).collect::<String>()))),
-                }
-            }
-            ev["calc"] = json!(outs);
-        }
+        let ev = graph_event(g, &nodes, &jn, &outputs, &layout, &mut named, &buf, &mut scratch, &mut r);
         out.push(ev);
+        // the twin: the same graph with ONE operator exchanged (its stored form has the same length), evaluated right after
+        // it from the same buffer
+        if let Some(i) = nodes.iter().position(|nd| matches!(nd, Node::Op(op, _, _) if [Operation::Add, Operation::Sub, Operation::Mul].contains(op))) {
+            if let Node::Op(op, a, b) = nodes[i].clone() {
+                let (op2, name2) = if op == Operation::Add { (Operation::Sub, "Sub") } else { (Operation::Add, "Add") };
+                let mut nodes2 = nodes.clone();
+                nodes2[i] = Node::Op(op2, a, b);
+                let mut jn2 = jn.clone();
+                jn2[i] = json!({"k": "op", "op": name2, "a": a, "b": b});
+                let ev2 = graph_event(g + 100000, &nodes2, &jn2, &outputs, &layout, &mut named, &buf, &mut scratch, &mut r);
+                out.push(ev2);
+            }
+        }
     }
 }
 
